@@ -16,6 +16,7 @@ CONSTANTS
   Params <- C_Params
   ParamAlts <- C_ParamAlts
   ParamGate <- SimParamGate
+  WithRestart <- SimWithRestart
   Prs <- C_Prs
   ProvSeqs <- C_ProvSeqs
   Msgs <- C_Msgs
